@@ -10,8 +10,12 @@ Require Import Base.
 
 Inductive jkind := JFwd | JBack | JBackNoInt.
 
+(* the CPython versions whose bytecode is modelled *)
+Inductive pyver := V311 | V312.
+
 Inductive instr :=
   | ICache | IExtArg | INop
+  | IPrecall                               (* 3.11 only: PRECALL before CALL; no effect on the value stack *)
   | IResume                                (* RESUME: eval-breaker check, may raise, runs no code of the frame's own *)
   | ILoadConst (isnone : bool)
   | IPop                                   (* POP_TOP: may pop anything, cannot raise *)
@@ -30,6 +34,7 @@ Inductive instr :=
   | IReturn (pops : nat)
   | IJump (k : jkind) (tgt : nat)
   | ICondJump (tgt : nat) (raises : bool)
+  | IJumpOrPop (tgt : nat)                 (* 3.11 JUMP_IF_{TRUE,FALSE}_OR_POP: jump keeps TOS, fall-through pops it *)
   | IForIter (tgt : nat)
   | IGen (pops pushes : nat) (raises : bool).
 
@@ -59,7 +64,7 @@ Definition insns (c : code) : list nat :=
 
 Definition jump_target (i : instr) : option nat :=
   match i with
-  | ISend t | IJump _ t | ICondJump t _ | IForIter t => Some t
+  | ISend t | IJump _ t | ICondJump t _ | IJumpOrPop t | IForIter t => Some t
   | _ => None
   end.
 
